@@ -216,8 +216,20 @@ type Attr struct {
 // UnmarshalToType unmarshals the data into a value of the type represented by
 // the attribute and returns it.
 func (a Attr) UnmarshalToType(data []byte) (any, error) {
-	if a.Nullable && string(data) == "null" {
-		return GetZeroValue(a.Type, a.Nullable), nil
+	if string(data) == "null" {
+		if a.Nullable {
+			return GetZeroValue(a.Type, a.Nullable), nil
+		}
+
+		// A nil byte slice is marshaled as null, so null is kept as a
+		// valid value for bytes.
+		if a.Type != AttrTypeBytes {
+			return nil, NewErrInvalidFieldValueInBody(
+				a.Name,
+				string(data),
+				GetAttrTypeString(a.Type, a.Nullable),
+			)
+		}
 	}
 
 	var (
